@@ -19,11 +19,13 @@ SHARED = [
 class C11(HistProp):
     id = 'C11'
     module = 'Cbor.Props.C11'
-    theorems = ['Props.C11.copy_scalar', 'Props.C11.copy_string', 'Props.C11.copy_leaf_source_intact']
+    theorems = ['Props.C11.C11_source_intact', 'Props.C11.C11_books', 'Props.C11.copy_scalar', 'Props.C11.copy_string', 'Props.C11.copy_leaf_source_intact',
+                'Heap.copy_frame_all', 'Heap.copy_counts_all']
     trusted_base = BASE_TRUST + HEAP_TRUST + [
-        'theorems cover the non-recursive cases of cbor_copy (all scalars, definite strings); containers, tags and chunked strings are decided by the '
-        'correspondence (the model copies recursively with the same requests, counts and capacities) and by the harness: address-set disjointness of the '
-        'copy from everything else, refcount 1 on every node of the copy, no node occurring twice in it, mutate / release one tree and re-inspect the other',
+        'theorems: source (and every other pre-existing item) untouched whether the copy succeeds or fails, under any allocator oracle; copy built from new items only; '
+        'reference-count invariant after the copy; exact result for leaves.  That the copy denotes the same value as the source for containers, tags and chunked strings, and '
+        'that every node of it has count 1, is decided by the correspondence (the model copies recursively with the same requests, counts and capacities) and by the harness: '
+        'address-set disjointness, refcount 1 on every node, no node twice, equal dump and serialization, mutate / release one tree and re-inspect the other',
     ]
     rule = ('trees: the C03 corpus (all leaf kinds at boundary values incl. maximal-width integers, empty containers, zero-chunk indefinite strings, nesting to depth 4) '
             'loaded from their encodings, plus hand-built trees with shared sub-items, partially filled definite containers and NaN payloads, plus random API histories '
